@@ -2596,7 +2596,7 @@ def loop_exit_edges(body, blocks):
 
 
 class Row:
-    __slots__ = ("path", "sel", "facts", "bools", "ret", "end", "retn")
+    __slots__ = ("path", "sel", "facts", "bools", "ret", "end", "retn", "_body")
 
 
 def table(body, max_paths=20000):
@@ -3341,6 +3341,9 @@ def iteration_table(body, head, max_paths=5000, stop_at_exit=False):
                 dt = ("discr", dt[1])
             succs_ = [(v, tgt) for v, tgt in t["targets"]] + [("otherwise", t["otherwise"])]
             known_ = unmut(dt)
+            if body.raw.get("inlined") and known_[0] != "const":
+                # `(helper(..)? )` where the inlined copy ended in a literal Ok(true): the payload is that literal
+                known_ = unmut(nosite(deep_strip(dt)))
             if known_[0] == "const" and isinstance(known_[2], (bool, int)) and names is None:
                 # the discriminant is a constant on this path (e.g. a bool local assigned earlier on it): only that branch is feasible
                 kv = int(known_[2])
